@@ -478,7 +478,9 @@ std::vector<y2::type_id> hs_ids(Rng& r, int fam, int count, std::set<y2::type_id
         default:
             id = (r.below(1 << 20) << 3); // ids differing only in low bits
         }
-        if (id == 0 || id == ~y2::type_id(0) || !used.insert(id).second)
+        if (r.chance(0.01))
+            id = 0; // a legal custom id
+        if (id == ~y2::type_id(0) || !used.insert(id).second)
             continue;
         out.push_back(id);
     }
